@@ -129,6 +129,8 @@ def gen_live(rng, flavour):
         sc["split_ocm"] = True  # the order stream reports the bets of one request in separate messages
     if side.random() < 0.2:
         sc["yield_pct"] = side.choice([30, 70])  # a pool thread may be suspended between two instruction reports of a reply
+    if side.random() < 0.2:
+        sc["main_yield_pct"] = side.choice([30, 70])  # pool threads may run between two requests of one main-loop handler
     if side.random() < 0.35:
         # nothing orders the pool thread and the submitting thread: in these sessions a submitted request may run - up to
         # the processing of its reply - before submit() returns to the main loop
@@ -395,4 +397,39 @@ def gen_c03_overlap(rng):
     }
     if rng.random() < 0.3:
         sc["split_ocm"] = True
+    return sc
+
+
+def gen_cancel_race(rng):
+    """Directed: two resting bets cancelled in ONE package while the exchange part-matches one of them just before; the pool
+    thread may be suspended between the two instruction reports (yield_pct), so the order-stream messages about the fill and
+    about the completed bet can be processed by the main loop in the middle of the reply."""
+    knobs = {"n_updates": (8, 10), "p_removal": 0.0, "p_suspend": 0.0, "p_inplay": 0.0, "p_close": 0.0, "n_runners": (2, 3), "spacing": "normal"}
+    m = marketgen.gen_market(rng, 0, knobs)
+    places = []
+    for k in range(rng.choice([2, 2, 3])):
+        side = "BACK" if k % 2 == 0 else "LAY"
+        places.append({"op": "place", "sel": m["runners"][k % len(m["runners"])], "side": side, "type": "LIMIT", "price": 900.0 if side == "BACK" else 1.02, "size": r2(rng.choice([2.0, 3.0, 4.5])), "persistence": "LAPSE"})
+    m["updates"][1]["acts"] = {"L0": [{"op": "txn", "acts": places}]}
+    cancels = [{"op": "cancel", "order": k} for k in range(len(places))]
+    if rng.random() < 0.3:
+        cancels[0]["red"] = 1.0
+    m["updates"][rng.choice([3, 4])]["acts"] = {"L0": [{"op": "txn", "acts": cancels}]}
+    sc = {
+        "world": "B",
+        "cfg": {"async": False, "max_workers": 32},
+        "clients": [{"limit": 5000}],
+        "markets": [m],
+        "strategies": [{"name": "L0", "markets": [0], "client": 0, "max_live_trade_count": 1}],
+        "tape": [rng.randrange(1_000_000) for _ in range(90)],
+        "duplicates": rng.random() < 0.2,
+        "idle_ticks": False,
+        "image_with_complete": True,
+        "max_steps": 600,
+        "faults": {},
+        "exchange_events": [{"type": "fill", "bet": rng.randrange(len(places)), "size": rng.choice([0.25, 0.5, 0.5])} for _ in range(rng.choice([2, 4, 6]))],
+        "yield_pct": 70,
+        "stream_lag_steps": rng.choice([0, 4, 8, 12]),
+        "directed": "package-cancel-with-a-partial-match-and-stream-messages-between-the-reports",
+    }
     return sc
